@@ -519,6 +519,31 @@ pub fn generate(s: &mut Session, thorough: bool) -> bool {
             }
         }
     }
+    // (iv-a) waveforms in which no grid point beats "no pulse at all": all zero, positive constants,
+    // positive-only noise, ramps, waveforms shorter than any window; through the sweep (wire and pad
+    // grids), the pad path and a one-wire block. One output sample per input sample, all zero or
+    // whatever the plain definition gives (seed C17-9 returned an empty vector)
+    for k in 0..(8 * scale) {
+        for len in [1usize, 2, 5, 17, 64, 200, 409, 696] {
+            let sig: Vec<f64> = match k % 4 {
+                0 => vec![0.0; len],
+                1 => vec![1.0 + (k as f64); len],
+                2 => (0..len).map(|_| 30.0 * rng.f64_unit()).collect(),
+                _ => (0..len).map(|i| i as f64 * 0.25).collect(),
+            };
+            for wire in [true, false] {
+                let (resp, g) = if wire { (&wire_resp, WIRE_GRID) } else { (&pad_resp, PAD_GRID) };
+                let (imp, val) = if wire { impl_ls(&sig, trunc(resp, len), g) } else { impl_pad(&sig) };
+                let why = match &val {
+                    Some(v) if v.len() != len => Some(format!("{} output samples for {len} input samples", v.len())),
+                    Some(v) => shape_nonneg(v, len),
+                    None => Some("deconvolution panicked".into()),
+                };
+                let req = if wire { req_ls("ls", g, &sig, trunc(resp, len)) } else { format!("pad {} {}", fvec(&sig), fvec(resp)) };
+                s.push_oracle("no-negative-window", req, imp, why);
+            }
+        }
+    }
     // scaling through the Cholesky path: a contiguous block of wires with differing lengths
     for _ in 0..6 * scale {
         let mut base_sig = empty_wires();
